@@ -42,13 +42,24 @@ def jobs(tier):
                            functions=["%s (extracted text, ring Z/256)" % fn],
                            bound="%s, %dx%d, every error term and measurement symbolic in Z/256, symbolic cell" % (typ, n, n),
                            cbmc_flags=["--no-leak"], timeout=(200 if tier == "quick" else 1800)))
+    import C20
+    pairs = [(3, 1), (1, 3), (2, 3)] if tier == "quick" else [(3, 1), (1, 3), (2, 3), (3, 2), (1, 2), (2, 1)]
+    for t in (("VNACAL_T8", "VNACAL_U8") if tier == "quick" else ("VNACAL_T8", "VNACAL_U8", "VNACAL_TE10", "VNACAL_UE10", "VNACAL_UE14")):
+        for (p1, p2) in pairs:
+            J.append(V.Job("cell_map.%s_p%d%d" % (t[7:], p1, p2), "vnacal/c01_map.c", "h_cell_map",
+                           C20.BASE + ["vnacal_make_scalar_parameter.c"],
+                           defines=C20.CUT + ["-DCAL_TYPE=%s" % t, "-DP1=%d" % p1, "-DP2=%d" % p2], unwind=14,
+                           union_struct=True, kind="bounded", canary=((p1, p2) == (3, 1) and t == "VNACAL_T8"),
+                           functions=["_vnacal_new_add_common (cell maps)", "vnacal_new_add_line_m"],
+                           bound="%s 3x3, two-port standard with abbreviated 2x2 M on ports (%d,%d); measured values symbolic" % (t, p1, p2),
+                           timeout=300))
     return J
 
 
 ASSUME = [
     "ring substitution: fill_* are compiled with double complex -> unsigned char (Z/256) on the mechanically extracted text: IEEE rounding, overflow, NaN dropped; indices, bounds, offsets, signs, operands kept",
     "the linear kernels (_vnacommon_mldivide/mrdivide/qrsolve) are assumed to return the solution of the system they are given",
-    "NOT covered: _vnacal_new_add_common cell mapping, _vnacal_new_build_equation_terms, fill_u8/u16/ue14/e12, solve loops, accuracy: see DESIGN 8.9 - the end-to-end numerical statement of C01 is out of reach",
+    "link 2 (cell mapping of _vnacal_new_add_common) only along real histories with a two-port standard, abbreviated 2x2 M and all port orders on a 3x3 calibration; NOT covered: _vnacal_new_build_equation_terms, fill_u8/u16/ue14/e12, solve loops, accuracy: the end-to-end numerical statement of C01 is out of reach",
 ]
 TRUSTED = ["CBMC 6.11 DFCC", "gen/extract_fn.py (line-anchored extraction)", "harness/vnacal/c01_fill.c (documented forms restated)"]
 
